@@ -50,10 +50,12 @@ Theorem C03_sub_balance_error_iff : forall m bs h,
 Proof. exact sub_balance_none. Qed.
 Print Assumptions C03_sub_balance_error_iff.
 
-(* The model satisfies the executable property on every well-formed input (operation histories of Balance,
-   SetAvail and connection-count changes; kf_C03 = 0 everywhere). *)
+(* The model satisfies the executable property on every well-formed input: operation histories of Balance, SetAvail,
+   connection-count changes, BalanceGslb.Reload (sub-clusters re-weighted, removed, added) and BackendReload; each
+   Reload conf lists a sub-cluster once (gop_ok).  kf_C03 = 0 everywhere. *)
 Theorem C03_prop_of_model : forall i p conf ops,
   dec_in i = Some (p, conf, ops) -> NoDup (map (fun s : key * Z * list (Z * Z) => fst (fst s)) conf) ->
+  forallb gop_ok ops = true ->
   prop_C03 i (run_C03 i) = true.
 Proof. exact prop_of_model_C03. Qed.
 Print Assumptions C03_prop_of_model.
@@ -80,8 +82,8 @@ Theorem C03_slowstart_never_nonpositive : forall wlc T l p l',
 Proof. exact (fun wlc T l p l' => pick2_spec (bal_of wlc) T l p l' (bal_of_ok wlc)). Qed.
 Print Assumptions C03_slowstart_never_nonpositive.
 
-(* Central statement: wf_C03 (executable: the input decodes as a BalanceGslb history and the sub-cluster names are
-   pairwise distinct) and kf_C03 = 0 imply that the model's own run satisfies the predicate the harness evaluates on
+(* Central statement: wf_C03 (executable: the input decodes as a BalanceGslb history incl. reloads, the sub-cluster
+   names are pairwise distinct, initially and in every Reload conf) and kf_C03 = 0 imply that the model's own run satisfies the predicate the harness evaluates on
    the implementation.  (Kind 9 slow-start inputs are covered by C03_slowstart_never_nonpositive instead.) *)
 Theorem C03_central : forall i, wf_C03 i = true -> kf_C03 i = 0 -> prop_C03 i (run_C03 i) = true.
 Proof. exact central_C03. Qed.
